@@ -191,12 +191,13 @@ Prog(cfg, env) ==
 \*       cwd   : "host" | "new",   priv : root propagation made private
 \*       nfs   : number of file-system instances created,   last : errno of the last syscall
 \*       fail  : a syscall ended with a result the code treats as fatal
-\*       mk    : what maskPath still has to do for the current path: "done" | "stat" | "tmpfs" | "empty" ]
+\*       mk    : what maskPath still has to do for the current path: "done" | "stat" | "tmpfs" | "empty"
+\*       seen  : kinds of the syscalls executed so far (vacuity check: every kind is executed somewhere) ]
 FsIds == << "fs1", "fs2", "fs3", "fs4", "fs5", "fs6", "fs7", "fs8", "fs9", "fs10", "fs11", "fs12",
             "fs13", "fs14", "fs15", "fs16", "fs17", "fs18", "fs19", "fs20" >>
 
 St0 == [mt |-> <<>>, files |-> {}, host |-> "under", cwd |-> "host", priv |-> FALSE,
-        nfs |-> 0, last |-> OK, fail |-> FALSE, mk |-> "done"]
+        nfs |-> 0, last |-> OK, fail |-> FALSE, mk |-> "done", seen |-> {}]
 
 Rel(p, at) == SubSeq(p, Len(at) + 1, Len(p))
 
@@ -369,7 +370,10 @@ Skipped(st, op) == \/ op.k = "maskstat" /\ st.mk # "stat"
 Apply(st, op, env) ==
   IF st.fail \/ Skipped(st, op) THEN st
   ELSE LET s2 == ApplyRaw(st, op, env)
-       IN [s2 EXCEPT !.fail = s2.last \notin op.ok]
+       IN [s2 EXCEPT !.fail = s2.last \notin op.ok, !.seen = @ \cup {op.k}]
+
+OpKinds == {"private", "mountroot", "chdir", "mkdir", "mknod", "mount", "statfs", "remount", "pivot", "umount",
+            "rmdir", "symlink", "maskbind", "maskstat", "masktmp", "maskmk", "maskbinde", "maskro", "maskrm"}
 
 Final(cfg, env) == FoldLeft(LAMBDA s, op : Apply(s, op, env), St0, Prog(cfg, env))
 
